@@ -13,4 +13,5 @@ def build(reg):
     specs += record.add_codec(reg)
     specs += findfiles.add_findfiles(reg)
     specs += naming.add_naming(reg)
+    specs += record.add_delete_files(reg)  # what mode 'w' removes
     return {"verify": specs, "lemmas": [("next-patch-file-is-found-by-name", naming.lemma_next_patch_is_found)], "trusted": hashing.TRUSTED + [record.T1_OPEN, record.T5_UB, "T4 list.sort(key) yields a permutation ascending in the key"] + findfiles.T_FIND + naming.T_NAMES, "assumptions": ["the view is a function of the files' content and their order only (IH5 nodes hold no other state): with the proved order-independence of _open any permutation of the file list gives the same record", "__init__ is verified against stubs that log which of find_files/_create/_open/create_patch are called; their own contracts are C02/C04 obligations"]}
